@@ -9,4 +9,5 @@ go build -o bin/vcheck ./cmd/vcheck
 ./bin/vcheck warm
 # independent Unicode oracle tables (CPython unicodedata); derived from golden/ only
 python3 py/norm.py variants golden build/uforms >/dev/null
+python3 py/norm.py decomp build/uforms >/dev/null
 echo "setup ok"
